@@ -72,7 +72,7 @@ func NewWire(tag string) (*WirePipe, error) {
 	_ = os.MkdirAll(filepath.Join(p.Dir, "tools"), 0o755)
 	_ = os.WriteFile(filepath.Join(p.Dir, "tools", "tools.go"), []byte("//go:build tools\n\npackage tools\n\nimport _ \"github.com/google/wire/cmd/wire\"\n"), 0o644)
 	_ = os.MkdirAll(filepath.Join(p.Dir, "seed"), 0o755)
-	_ = os.WriteFile(filepath.Join(p.Dir, "seed", "seed.go"), []byte("package seed\n\nimport (\n\t_ \"bytes\"\n\t_ \"time\"\n\t_ \"context\"\n\t_ \"errors\"\n\t_ \"fmt\"\n\t_ \"github.com/google/wire\"\n\t_ \"github.com/mazrean/kessoku\"\n\t_ \"golang.org/x/sync/errgroup\"\n)\n"), 0o644)
+	_ = os.WriteFile(filepath.Join(p.Dir, "seed", "seed.go"), []byte("package seed\n\nimport (\n\t_ \"bytes\"\n\t_ \"strings\"\n\t_ \"net/netip\"\n\t_ \"time\"\n\t_ \"context\"\n\t_ \"errors\"\n\t_ \"fmt\"\n\t_ \"github.com/google/wire\"\n\t_ \"github.com/mazrean/kessoku\"\n\t_ \"golang.org/x/sync/errgroup\"\n)\n"), 0o644)
 	if out, err := load.Run(p.Dir, false, 5*time.Minute, nil, "go", "build", "-o", p.Wire, "github.com/google/wire/cmd/wire"); err != nil {
 		s.Cleanup()
 		return nil, fmt.Errorf("build wire: %v: %s", err, out)
